@@ -10,6 +10,8 @@ import (
 	"go/ast"
 	"go/token"
 	"go/types"
+	"sort"
+	"strings"
 )
 
 // Cond is the test on a conditional edge.
@@ -58,6 +60,7 @@ type CFG struct {
 	Entry  *Block
 	Exit   *Block // normal return
 	Panic  *Block // abnormal termination
+	prog   *Prog
 }
 
 type cfgBuilder struct {
@@ -84,7 +87,7 @@ func (p *Prog) CFG(f *Func) *CFG {
 	if f.cfg != nil {
 		return f.cfg
 	}
-	g := &CFG{Fn: f}
+	g := &CFG{Fn: f, prog: p}
 	b := &cfgBuilder{g: g, p: p, labels: map[string]*target{}}
 	g.Entry = b.newBlock("entry")
 	g.Exit = b.newBlock("exit")
@@ -587,25 +590,28 @@ func (g *CFG) PathAvoiding(start Loc, barrier func(n ast.Node) bool, goal func(b
 	type item struct {
 		b    *Block
 		prev *item
+		env  flagEnv
 	}
-	blocked := func(b *Block, from int) bool {
+	// walk the nodes of b from index from: blocked by the barrier, or the flag knowledge after the block
+	run := func(b *Block, from int, env flagEnv) (flagEnv, bool) {
 		for i := from; i < len(b.Nodes); i++ {
 			if barrier != nil && barrier(b.Nodes[i]) {
-				return true
+				return nil, true
 			}
+			env = g.flagStep(env, b.Nodes[i])
 		}
-		return false
+		return env, false
 	}
-	seen := map[*Block]bool{}
+	seen := map[string]bool{}
 	var queue []*item
-	first := &item{b: start.B}
-	if blocked(start.B, start.I) {
+	env0, blocked := run(start.B, start.I, flagEnv{})
+	if blocked {
 		return nil, false
 	}
 	if goal(start.B) && start.I == 0 {
 		return []*Block{start.B}, true
 	}
-	queue = append(queue, first)
+	queue = append(queue, &item{b: start.B, env: env0})
 	for len(queue) > 0 {
 		it := queue[0]
 		queue = queue[1:]
@@ -613,10 +619,14 @@ func (g *CFG) PathAvoiding(start Loc, barrier func(n ast.Node) bool, goal func(b
 			if ok != nil && !ok(e) {
 				continue
 			}
-			if seen[e.To] {
+			if g.flagContradicts(it.env, e) {
+				continue // the test of a flag variable cannot go this way after the assignment just passed
+			}
+			key := fmt.Sprintf("%d|%s", e.To.ID, it.env.String())
+			if seen[key] {
 				continue
 			}
-			seen[e.To] = true
+			seen[key] = true
 			nx := &item{b: e.To, prev: it}
 			if goal(e.To) {
 				var path []*Block
@@ -625,13 +635,189 @@ func (g *CFG) PathAvoiding(start Loc, barrier func(n ast.Node) bool, goal func(b
 				}
 				return path, true
 			}
-			if blocked(e.To, 0) {
+			env, blocked := run(e.To, 0, it.env)
+			if blocked {
 				continue
 			}
+			nx.env = env
 			queue = append(queue, nx)
 		}
 	}
 	return nil, false
+}
+
+// flagEnv: what a path knows about flag variables (boolean locals set to
+// constants; error / pointer locals set to nil or to something known to be
+// non-nil; copies of such locals) after the assignments it has passed. It
+// prunes the edges of later tests that cannot be taken on that path, which
+// makes the must-pass-through queries exact across an inlined helper that
+// returns (value, ok) or (value, err).
+type flagEnv map[types.Object]string
+
+func (e flagEnv) String() string {
+	if len(e) == 0 {
+		return ""
+	}
+	var ks []string
+	for o, c := range e {
+		ks = append(ks, fmt.Sprintf("%s@%d=%s", o.Name(), o.Pos(), c))
+	}
+	sort.Strings(ks)
+	return strings.Join(ks, ",")
+}
+
+func (g *CFG) flagStep(env flagEnv, n ast.Node) flagEnv {
+	p := g.prog
+	if p == nil {
+		return env
+	}
+	set := func(o types.Object, class string) {
+		ne := flagEnv{}
+		for k, v := range env {
+			ne[k] = v
+		}
+		if class == "" {
+			delete(ne, o)
+		} else {
+			ne[o] = class
+		}
+		env = ne
+	}
+	classify := func(lhs *ast.Ident, rhs ast.Expr) {
+		v, ok := p.ObjOf(lhs).(*types.Var)
+		if !ok || v.IsField() || lhs.Name == "_" || v.Pkg() == nil || v.Parent() == v.Pkg().Scope() {
+			return
+		}
+		isBool := false
+		if b, isB := v.Type().Underlying().(*types.Basic); isB && b.Kind() == types.Bool {
+			isBool = true
+		}
+		if !isBool {
+			switch v.Type().Underlying().(type) {
+			case *types.Pointer, *types.Interface, *types.Slice, *types.Map, *types.Chan, *types.Signature:
+			default:
+				return
+			}
+		}
+		class := ""
+		if rhs != nil {
+			rhs = unparen(rhs)
+			switch {
+			case isBool:
+				if cv, isC := p.ConstVal(rhs); isC {
+					class = "false"
+					if cv == "true" {
+						class = "true"
+					}
+				}
+			case p.isNilExpr(rhs):
+				class = "nil"
+			default:
+				switch x := rhs.(type) {
+				case *ast.UnaryExpr:
+					if x.Op == token.AND {
+						class = "nonnil"
+					}
+				case *ast.CompositeLit:
+					class = "nonnil"
+				}
+			}
+			if class == "" {
+				if rid, isID := rhs.(*ast.Ident); isID {
+					if w := p.ObjOf(rid); w != nil && env[w] != "" {
+						class = env[w]
+					}
+				}
+			}
+			if class == "" && !isBool {
+				for _, d := range p.dominatingFactListDepth(g.Fn, n, 3) {
+					if d.Op == "==" && d.Y != nil && p.isNilExpr(d.Y) && p.Canon(d.X) == p.Canon(rhs) {
+						class = "nonnil"
+						if d.Val {
+							class = "nil"
+						}
+					}
+				}
+			}
+		} else if isBool {
+			class = "false" // zero value
+		} else {
+			class = "nil"
+		}
+		if class != env[v] {
+			set(v, class)
+		}
+	}
+	switch x := n.(type) {
+	case *ast.AssignStmt:
+		if len(x.Lhs) == len(x.Rhs) {
+			for i, l := range x.Lhs {
+				if id, ok := unparen(l).(*ast.Ident); ok {
+					classify(id, x.Rhs[i])
+				}
+			}
+		} else {
+			for _, l := range x.Lhs {
+				if id, ok := unparen(l).(*ast.Ident); ok {
+					if o := p.ObjOf(id); o != nil && env[o] != "" {
+						set(o, "")
+					}
+				}
+			}
+		}
+	case *ast.DeclStmt:
+		if gd, ok := x.Decl.(*ast.GenDecl); ok {
+			for _, sp := range gd.Specs {
+				if vs, ok := sp.(*ast.ValueSpec); ok {
+					for i, nm := range vs.Names {
+						if i < len(vs.Values) {
+							classify(nm, vs.Values[i])
+						} else if len(vs.Values) == 0 {
+							classify(nm, nil)
+						}
+					}
+				}
+			}
+		}
+	case *RangeAssign:
+		for _, e := range []ast.Expr{x.Stmt.Key, x.Stmt.Value} {
+			if e != nil {
+				if id, ok := unparen(e).(*ast.Ident); ok {
+					if o := p.ObjOf(id); o != nil && env[o] != "" {
+						set(o, "")
+					}
+				}
+			}
+		}
+	}
+	return env
+}
+
+// flagContradicts: edge e tests a flag variable whose value on this path is known to be the other one.
+func (g *CFG) flagContradicts(env flagEnv, e *Edge) bool {
+	p := g.prog
+	if p == nil || len(env) == 0 || e.Cond == nil {
+		return false
+	}
+	for _, ft := range p.FactsOfCond(e.Cond, e.Val) {
+		switch ft.Op {
+		case "truth":
+			if id, ok := unparen(ft.X).(*ast.Ident); ok {
+				if c := env[p.ObjOf(id)]; (c == "true" && !ft.Val) || (c == "false" && ft.Val) {
+					return true
+				}
+			}
+		case "==":
+			if ft.Y != nil && p.isNilExpr(ft.Y) {
+				if id, ok := unparen(ft.X).(*ast.Ident); ok {
+					if c := env[p.ObjOf(id)]; (c == "nil" && !ft.Val) || (c == "nonnil" && ft.Val) {
+						return true
+					}
+				}
+			}
+		}
+	}
+	return false
 }
 
 func (g *CFG) describePath(p *Prog, path []*Block) string {
